@@ -24,6 +24,33 @@ type Par struct {
 	Shape []int    `json:"shape,omitempty"`
 	Index [][2]int `json:"index,omitempty"`
 	Nil   bool     `json:"nilconf,omitempty"` // pass a nil config (defaults) to the component
+	Inst  int      `json:"inst,omitempty"`    // > 0: re-use the component object with this number within the case
+}
+
+// Registry holds the component objects (layers, losses, optimizers) a case re-uses across instructions.
+type Registry struct{ objs map[int]any }
+
+func NewRegistry() *Registry { return &Registry{objs: map[int]any{}} }
+
+func (r *Registry) get(inst int, make func() (any, error)) (any, error) {
+	if r == nil || inst == 0 {
+		return make()
+	}
+	if o, ok := r.objs[inst]; ok {
+		return o, nil
+	}
+	o, err := make()
+	if err == nil {
+		r.objs[inst] = o
+	}
+	return o, err
+}
+
+type forwarder interface {
+	Forward(xs ...Tensor) (Tensor, error)
+}
+type computer interface {
+	Compute(yp Tensor, yt Tensor) (Tensor, error)
 }
 
 type Rat struct {
@@ -241,6 +268,11 @@ func Apply(op string, par Par, args []Tensor) (Tensor, error) {
 
 // ApplyS is Apply that also reports the caller-owned slices it passed.
 func ApplyS(op string, par Par, args []Tensor) (Tensor, *Passed, error) {
+	return ApplyIn(nil, op, par, args)
+}
+
+// ApplyIn is ApplyS with a registry of re-usable component objects.
+func ApplyIn(reg *Registry, op string, par Par, args []Tensor) (Tensor, *Passed, error) {
 	p := &Passed{}
 	cp := func(s []int) []int {
 		if s == nil {
@@ -257,11 +289,11 @@ func ApplyS(op string, par Par, args []Tensor) (Tensor, *Passed, error) {
 		}
 		return r
 	}
-	t, err := apply(op, par, args, cp, ranges, p)
+	t, err := apply(reg, op, par, args, cp, ranges, p)
 	return t, p, err
 }
 
-func apply(op string, par Par, args []Tensor, cp func([]int) []int, ranges func([][2]int) []tensor.Range, p *Passed) (Tensor, error) {
+func apply(reg *Registry, op string, par Par, args []Tensor, cp func([]int) []int, ranges func([][2]int) []tensor.Range, p *Passed) (Tensor, error) {
 	switch op {
 	case "full":
 		return tensor.Full(cp(par.Shape), par.K.Float(), nil)
@@ -362,34 +394,47 @@ func apply(op string, par Par, args []Tensor, cp func([]int) []int, ranges func(
 		return a.MatMul(b)
 
 	/* components */
-	case "relu":
-		return activations.NewRelu().Forward(a)
-	case "leakyrelu":
-		var conf *activations.LeakyReluConfig
-		if par.K != nil && !par.Nil {
-			conf = &activations.LeakyReluConfig{M: par.K.Float()}
-		}
-		return activations.NewLeakyRelu(conf).Forward(a)
-	case "sigmoid":
-		return activations.NewSigmoid().Forward(a)
-	case "tanhact":
-		return activations.NewTanh().Forward(a)
-	case "softmax":
-		var conf *activations.SoftmaxConfig
-		if !par.Nil {
-			conf = &activations.SoftmaxConfig{Dim: par.Dim}
-		}
-		l, err := activations.NewSoftmax(conf)
+	case "relu", "leakyrelu", "sigmoid", "tanhact", "softmax":
+		o, err := reg.get(par.Inst, func() (any, error) {
+			switch op {
+			case "relu":
+				return activations.NewRelu(), nil
+			case "leakyrelu":
+				var conf *activations.LeakyReluConfig
+				if par.K != nil && !par.Nil {
+					conf = &activations.LeakyReluConfig{M: par.K.Float()}
+				}
+				return activations.NewLeakyRelu(conf), nil
+			case "sigmoid":
+				return activations.NewSigmoid(), nil
+			case "tanhact":
+				return activations.NewTanh(), nil
+			}
+			var conf *activations.SoftmaxConfig
+			if !par.Nil {
+				conf = &activations.SoftmaxConfig{Dim: par.Dim}
+			}
+			l, err := activations.NewSoftmax(conf)
+			if err != nil {
+				return nil, err
+			}
+			return l, nil
+		})
 		if err != nil {
 			return nil, err
 		}
-		return l.Forward(a)
-	case "mse":
-		return losses.NewMSE().Compute(a, b)
-	case "bce":
-		return losses.NewBCE().Compute(a, b)
-	case "ce":
-		return losses.NewCE().Compute(a, b)
+		return o.(forwarder).Forward(a)
+	case "mse", "bce", "ce":
+		o, _ := reg.get(par.Inst, func() (any, error) {
+			switch op {
+			case "mse":
+				return losses.NewMSE(), nil
+			case "bce":
+				return losses.NewBCE(), nil
+			}
+			return losses.NewCE(), nil
+		})
+		return o.(computer).Compute(a, b)
 	case "sgd":
 		// args: the tensor to update (it must hold a gradient); result: the tensor behind the pointer afterwards
 		var conf *optimizers.SGDConfig
